@@ -11,6 +11,7 @@ evaluator (plain Python semantics + SQL NULL), wherever they occur in a tree:
   ['boolfn', e]                        bool(e)   (only inside a truth test of a condition)
   ['tcmp', op, [a1, a2], [b1, b2]]     (a1, a2) op (b1, b2)      tuple comparison of non-nullable operands
   ['tsubin', neg, [e1, e2], Ent, ivar, [i1, i2], cond]           (e1, e2) [not] in ((i1, i2) for ivar in Ent if cond)
+                                       e1, e2 non-nullable; i1 / i2 may be the nullable column `on` (colliding small int domain)
 and ['and', a, b] does not evaluate b when a is False (Python's short circuit; FALSE AND x is FALSE in SQL), which makes guarded
 indexing  len(e) > k and e[i] ...  judgeable.  qgen's own kinds concat, slice, index, upper/lower/strip, startswith/endswith/
 contains (with non-constant patterns) and len are generated more densely here than in qgen.queries().
@@ -84,8 +85,9 @@ def install():
                 if e[6] is not None and cond(e[6], env2) is not True:
                     continue
                 b = tuple(ev(x, env2) for x in e[5])
-                if any(v is None for v in b):
-                    raise qgen.Unspecified()
+                # a component of a subquery row may be None (nullable column): Python's tuple equality is then simply False,
+                # so the outer row stays in for `not in` -- which is what pony promises by adding IS NOT NULL checks to the
+                # subquery of a NOT IN (plain SQL would answer NULL and drop the outer row)
                 if a == b:
                     found = True
             return (not found) if e[1] else found
@@ -254,7 +256,17 @@ def extra_conditions(var, ent):
     pair = st.tuples(nonnull_int(var, ent), nonnull_str(var, ent)).map(list)
     opair = st.tuples(nonnull_int(ovar, other), nonnull_str(ovar, other)).map(list)
     leaf = str_leaves(var, ent)
+    # tuple [NOT] IN subquery whose selected columns include a NULLABLE one: (x.n, x.id) not in ((ox.n, ox.on) for ox in B ...)
+    ipair = st.tuples(nonnull_int(var, ent), nonnull_int(var, ent)).map(list)
+    o_nonnull = st.one_of(st.sampled_from(['n', 'n', 'id']).map(lambda n: ['attr', ovar, n]), nonnull_int(ovar, other))
+    o_null = st.just(['attr', ovar, 'on'])
+    onpair = st.one_of(st.tuples(o_nonnull, o_null), st.tuples(o_nonnull, o_null), st.tuples(o_null, o_nonnull),
+                       st.tuples(o_null, o_null)).map(list)
+    null_tsubin = st.tuples(st.sampled_from([True, True, False]), ipair, onpair,
+                            st.one_of(st.none(), st.none(), qgen.conditions(ovar, other, 0, inner=True))).map(
+        lambda t: ['tsubin', t[0], t[1], other, ovar, t[2], t[3]])
     atoms = [
+        null_tsubin, null_tsubin,
         st.tuples(cmpop, extra_values(var, ent, 'int'), ints).map(lambda t: ['cmp', t[0], t[1], t[2]]),
         st.tuples(cmpop, extra_values(var, ent, 'str'), strs).map(lambda t: ['cmp', t[0], t[1], t[2]]),
         st.tuples(cmpop, extra_values(var, ent, 'str'), leaf).map(lambda t: ['cmp', t[0], t[1], t[2]]),
